@@ -455,6 +455,9 @@ type Ghost struct {
 	Name   string
 	Params []Sort
 	Result Sort
+	// Zero: Go type (types.TypeString) -> value of the ghost for a freshly allocated
+	// zero value of that type ("zeroghost G \"bytes.Buffer\" bempty")
+	Zero map[string]CExpr
 }
 
 type Axiom struct {
@@ -515,7 +518,7 @@ func NewContractSet() *ContractSet {
 	}
 }
 
-var topKeywords = map[string]bool{"func": true, "extern": true, "trusted": true, "spec": true, "ghost": true, "axiom": true, "lemma": true, "const": true, "guarded": true, "pred": true, "opaque": true}
+var topKeywords = map[string]bool{"func": true, "extern": true, "trusted": true, "spec": true, "ghost": true, "axiom": true, "lemma": true, "const": true, "guarded": true, "pred": true, "opaque": true, "zeroghost": true}
 var clauseKeywords = map[string]bool{"requires": true, "ensures": true, "modifies": true, "loop": true, "safety": true, "pure": true, "noeffect": true, "for": true, "bounded": true, "havocall": true, "noreturn": true, "uses": true, "option": true, "calls": true, "at": true, "ghostset": true, "stable": true}
 
 // ParseContractFile reads the //@ lines of a file. pkgPath is the import path
@@ -780,6 +783,10 @@ func (cs *ContractSet) ParseContractFile(path, pkgPath string) error {
 			if err != nil {
 				return fail(err)
 			}
+			if _, dup := cs.Preds[strings.TrimSpace(rest[:i])]; dup {
+				// predicates share one name space over all loaded contract files
+				return fail(fmt.Errorf("duplicate pred %s", strings.TrimSpace(rest[:i])))
+			}
 			cs.Preds[strings.TrimSpace(rest[:i])] = &Pred{Name: strings.TrimSpace(rest[:i]), Params: splitList(rest[i+1 : j]), Body: e}
 		case "ghost":
 			curLemma, cur = nil, nil
@@ -792,6 +799,22 @@ func (cs *ContractSet) ParseContractFile(path, pkgPath string) error {
 				g.Params = append(g.Params, p.Sort)
 			}
 			cs.Ghosts[g.Name] = g
+		case "zeroghost":
+			// zeroghost G "pkg.T" expr : G(r) == expr for every r freshly allocated as a zero T
+			curLemma, cur = nil, nil
+			parts := strings.SplitN(rest, " ", 3)
+			g, ok := cs.Ghosts[parts[0]]
+			if len(parts) != 3 || !ok || len(g.Params) != 1 {
+				return fail(fmt.Errorf("zeroghost G \"type\" expr (G a declared one-argument ghost)"))
+			}
+			e, err := ParseCExpr(strings.TrimSpace(parts[2]))
+			if err != nil {
+				return fail(err)
+			}
+			if g.Zero == nil {
+				g.Zero = map[string]CExpr{}
+			}
+			g.Zero[strings.Trim(parts[1], "\"")] = e
 		case "const":
 			curLemma, cur = nil, nil
 			parts := strings.Fields(rest)
